@@ -203,6 +203,57 @@ fn generate(ctx: &mut Ctx) -> Vec<Value> {
             }
         }
     }
+    cases.extend(ancestor_deadlines());
+    cases
+}
+
+/// The earliest deadline is a manifest or CRL nextUpdate of an ANCESTOR that
+/// publishes no payload itself (CRL re-issued daily under a weekly
+/// manifest, …); the payload sits two levels below. Second run with nothing
+/// changed (the point is taken from the store after the collector was
+/// consulted: restart path), abandoned update of the leaf, not-newer
+/// manifest; always run.
+fn ancestor_deadlines() -> Vec<Value> {
+    let mut cases = Vec::new();
+    let m = MODULES[0];
+    let opts = EngineOpts { enable_aspa: true, ..Default::default() };
+    for (who, what) in [("t0", "crl"), ("t0", "mft"), ("t0c0", "crl"), ("t0c0", "mft")] {
+        let mut tree = shaped_tree(&[
+            ("t0", None, vec![], m, 0), ("t0c0", Some("t0"), vec![0], m, 0),
+            ("t0c0c0", Some("t0c0"), vec![0, 0], m, 0),
+        ]);
+        for name in ["t0", "t0c0"] {
+            tree.world.ca_mut(name).unwrap().versions[0].objects
+                .retain(|o| matches!(o.kind, ObjKind::Ca { .. }));
+        }
+        {
+            let pv = &mut tree.world.ca_mut(who).unwrap().versions[0];
+            if what == "crl" { pv.crl.next_update = T0 + DAY } else { pv.next_update = T0 + DAY }
+        }
+        let f = |s: &str| Applied { what: format!("earliest={who}.{what} {s}"), ca: who.into(), only_object: None };
+        // A. nothing changes between the runs.
+        cases.push(case_json("ancestor-deadline", &tree, &opts, vec![
+            run_spec(T0, tree.serve(0), Order::Sorted),
+            run_spec(T0 + 600, tree.serve(0), Order::Sorted),
+            { let mut r = run_spec(T0 + 1200, tree.serve(0), Order::Sorted); r.update = Some(false); r },
+        ], &[f("unchanged")], json!(null)));
+        // B. the leaf publishes a newer version with a missing file.
+        let mut broken = tree.clone();
+        let leaf = broken.world.ca_mut("t0c0c0").unwrap();
+        let mut v1 = leaf.versions[0].clone();
+        v1.number = "2".into();
+        v1.this_update += 600;
+        v1.crl.this_update += 600;
+        v1.ee_serial += 1;
+        v1.objects[0].publish = Publish::Missing;
+        leaf.versions.push(v1);
+        let mut serve1 = broken.serve(0);
+        for p in serve1.points.iter_mut() { if p.0 == "t0c0c0" { p.1 = 1 } }
+        cases.push(case_json("ancestor-deadline", &broken, &opts, vec![
+            run_spec(T0, broken.serve(0), Order::Sorted),
+            run_spec(T0 + 900, serve1, Order::Sorted),
+        ], &[f("abandoned-update")], json!(null)));
+    }
     cases
 }
 
